@@ -93,7 +93,8 @@ pub fn seq_cfg(focus: &'static str, seed: u64, index: u64, clean_only: bool) -> 
     } else if focus == "C03" && index % 3 == 0 { n_keys as i64 * (cap + 24) } else if lenient_weights { n_keys as i64 * (cap + 24) + 3 * 4 * 5 + rng.range(0, 30) as i64 } else { (n_keys as i64 + 1) * (cap + 25) };
     // C17: now and then an "unbounded" cache, where sums of weights come close to the integer range
     let max_weight = if focus == "C17" && rng.chance(1, 6) { *rng.pick(&[i64::MAX, i64::MAX / 2 + 1, 1i64 << 62]) } else { max_weight };
-    let tick = if focus == "C09" && rng.chance(1, 3) { Duration::from_secs(3600) } else { Duration::from_millis(1) };
+    // (C17: also a tick below one millisecond, which the builder accepts)
+    let tick = if focus == "C09" && rng.chance(1, 3) { Duration::from_secs(3600) } else if focus == "C17" && rng.chance(1, 4) { Duration::from_micros(500) } else { Duration::from_millis(1) };
     let noise_threads = match focus {
         "C03" => *rng.pick(&[0usize, 1, 2, 3]),
         "C10" => *rng.pick(&[0usize, 0, 2]),
